@@ -25,10 +25,26 @@ const (
 	spUnknown idxSpace = iota
 	spSeg
 	spActive
+	spLow // position in the enumerator's list of iterators standing on the current key
 )
 
 func (s idxSpace) String() string {
-	return [...]string{"unknown", "segment-position", "active-position"}[s]
+	return [...]string{"unknown", "segment-position", "active-position", "low-list-position"}[s]
+}
+
+// isLowList: v is one of the two parallel slices returned by
+// enumerator.GetLowIdxsAndValues().
+func isLowList(v ssa.Value) bool {
+	ex, ok := root(v).(*ssa.Extract)
+	if !ok {
+		return false
+	}
+	call, ok := ex.Tuple.(*ssa.Call)
+	if !ok {
+		return false
+	}
+	f := call.Call.StaticCallee()
+	return f != nil && f.Name() == "GetLowIdxsAndValues"
 }
 
 func isPerSegmentSliceType(t types.Type) bool {
@@ -148,6 +164,9 @@ func isSliceOfInterest(t types.Type) bool {
 }
 
 func (ic *idxCtx) sliceSpace(v ssa.Value) idxSpace {
+	if isLowList(v) {
+		return spLow
+	}
 	n := varName(v, 0)
 	if n == "" {
 		n = varName(root(v), 0)
@@ -220,7 +239,7 @@ func ruleR25() *Rule {
 	return &Rule{
 		ID:    "R25",
 		Title: "INDEX-SPACE: per-segment input tables and per-field compacted tables are each indexed in their own index space",
-		Props: []string{"C06", "C13", "C15", "C05"},
+		Props: []string{"C06", "C13", "C15", "C05", "C09"},
 		Floor: floorFor("R25"),
 		Run: func(c *RuleCtx) {
 			p := c.p
@@ -233,6 +252,9 @@ func ruleR25() *Rule {
 					return []string{"C15"}
 				case strings.Contains(n, "mergeStoredAndRemap") || strings.Contains(n, "computeNewDocCount"):
 					return []string{"C05"}
+				}
+				if strings.Contains(n, "mergeAndPersistInvertedSection") {
+					return []string{"C06", "C09"} // also feeds the chunk layout of the merged postings
 				}
 				return []string{"C06"}
 			}
